@@ -501,6 +501,10 @@ N("C08/record/tail-texts", ["C08", "C12"], "board::verif_kani_f::n08_record_tail
   "for every record '<board> <side> <rights> <mark> <clock> <number>' built from a finite token grammar (5 side tokens x 24 rights tokens x 70 mark tokens x 9 x 9 counter tokens, plus records cut after each field): parsing never panics, and whenever it returns a raw board, formatting that board and parsing the text again returns the same raw board",
   bounded="records built from the token grammar listed in kani/board_harness_f.rs (about 680 000 texts)", timeout=1800)
 
+N("C12/fen/board-field-texts", ["C12", "C08"], "board::verif_kani_f::n12_board_field_text_grammar", ["<RawBoard as FromStr>::from_str", "board::parse_cells", "board::format_cells"],
+  "for every record whose board field has 1..10 ranks, all '8' except two positions taking every pair of 18 rank tokens (too long, too short, bad characters, empty, '.', nine squares), with three different tails: parsing never panics, and accepted text is stable under parse-format-parse",
+  bounded="board fields built from the token grammar listed in kani/board_harness_f.rs (about 50 000 texts)", timeout=1800)
+
 K("C12/san/from-str-4", ["C12", "C09", "C02"], "moves::san::verif_kani_d::c12_san_from_str_total_len4", ["<san::Move as FromStr>::from_str", "<san::Data as FromStr>::from_str"],
   "for all UTF-8 strings of <= 4 bytes (this contains every input of defect D2: \"N\", \"R+\", \"Kx\", \"\\u{20ac}\", \"N\\u{e9}4\"): SAN parsing returns a value or an error, never panics",
   bounded="strings of <= 4 bytes", assumes=["C12/utf8-predicate"], timeout=2400, mem_gb=24, mem_est=6)
